@@ -49,7 +49,7 @@ REPLAY_CONFIGS = [((16, 3, 3), 'F', True, -1), ((8, 3, 3), 'V', 21, -1), ((3, 16
 
 def log_replay(d):
     from . import c05_concrete
-    return c05_concrete.check(REPLAY_CONFIGS)
+    return ob.guarded(c05_concrete.check, REPLAY_CONFIGS)
 
 
 def task_dirs():
@@ -610,7 +610,7 @@ def task_multigrid_fine(cycle, sc_cycling, lr_cycling):
     d = clause(col, 'cycle_budget_invariant_reestablished_for_the_next_pattern', res, reest, pre) if cycle == 'F' else {'status': ''}
     if d['status'] == 'refuted':
         from . import c05_concrete
-        d['replay'] = c05_concrete.check([((16, 3, 3), 'F', True, -1), ((16, 3, 3), 'F', 12, -1), ((3, 16, 3), 'F', 213, -1)])
+        d['replay'] = ob.guarded(c05_concrete.check, [((16, 3, 3), 'F', True, -1), ((16, 3, 3), 'F', 12, -1), ((3, 16, 3), 'F', 213, -1)])
     if not sc_cycling:
         clause(col, 'fixed_pattern_stays', res, lambda r: r.state['var'].fields['sc_dir'] == scg, pre)
     clause(col, 'smoothing_uses_the_current_line_direction', res,
@@ -726,7 +726,7 @@ def task_concrete():
                 for sc in (0, 1, 2, 3, True, 21, 312):
                     cfg.append((shp, cyc, sc, -1))
             cfg.append((shp, 'F', True, 1))
-    r = c05_concrete.check(cfg)
+    r = ob.guarded(c05_concrete.check, cfg)
     col.concrete('solver_log_level_sequence_matches_documented_cycle', r['reproduced'] is False, r,
                  bounded=f'{len(cfg)} (shape, cycle, semicoarsening, clevel) configurations, 3 fine cycles each, verb=5 log', cases=r['cases'])
     return col.pack()
